@@ -75,7 +75,7 @@ func main() {
 			}
 		}
 		if len(os.Args) > 3 && os.Args[3] == "mods" {
-			m, top := w.modSetOf(fn, nil)
+			m, top := w.modSetOf(fn, nil, nil)
 			fmt.Println("top:", top)
 			for _, n := range heapNames(m) {
 				fmt.Println("  ", n)
@@ -167,7 +167,20 @@ func runCheck(repo, prop, tier string, keep bool, only string, noEvidence bool) 
 		if !clauseInvolves(fc, prop) || fc.Trusted {
 			continue
 		}
+		if fc.Inline && len(fc.Requires)+len(fc.Ensures)+len(fc.Claims) == 0 {
+			continue // verified where it is inlined
+		}
 		if only != "" && !strings.Contains(name, only) {
+			continue
+		}
+		if fc.FnType != "" {
+			// every function value of this signature must satisfy the contract
+			for _, cand := range w.fnValuesOfType(fc.FnType) {
+				if only != "" && !strings.Contains(w.funcName(cand), only) {
+					continue
+				}
+				results = append(results, verifyFunc(w, cand, fnTypeInstance(fc, cand)))
+			}
 			continue
 		}
 		fn := w.lookupFunc(name)
@@ -377,3 +390,19 @@ func writeReplay(prop, oname string, data map[string]interface{}) string {
 }
 
 var _ = ssa.GlobalDebug
+
+// fnTypeInstance: the fntype contract with the candidate's own parameter names.
+func fnTypeInstance(fc *FuncContract, fn *ssa.Function) *FuncContract {
+	c := *fc
+	c.Vars = map[string]string{}
+	for k, v := range fc.Vars {
+		c.Vars[k] = v
+	}
+	for i, n := range fc.ParamNames {
+		if i < len(fn.Params) && fn.Params[i].Name() != n {
+			c.Vars[n] = fn.Params[i].Name()
+		}
+	}
+	c.FnType = ""
+	return &c
+}
